@@ -629,30 +629,32 @@ package composite
 //@ requires c != nil && req != nil
 //@ ghost rounds int = 0
 //@ ghost stable bool = false
-//@ ghost fatal bool = false
+//@ ghost lastRsp ref = nilof(*fnv1.RunFunctionResponse)
+//@ macro HASFATAL(r) = exists f :: 0 <= f && f < len(r.Results) && r.Results[f] != nil && r.Results[f].Severity == fnv1.Severity_SEVERITY_FATAL
 //@ let $last = result (composite.FunctionRunner).RunFunction
 //@ site (composite.FunctionRunner).RunFunction(_, _, $n, $r)
 //@   assert [C04:wrapped-function-gets-the-callers-name-and-request] $n == name && $r == req
 //@   assert [C04:bounded-number-of-rounds] rounds <= 5
 //@   update rounds = rounds + 1
+//@   assert [C03,C04:no-further-call-after-a-fatal-result] lastRsp != nil ==> !HASFATAL(lastRsp)
 //@   update stable = false
-//@   update fatal = false
+//@   update lastRsp = result
 //@   update prevReq = curReq
 //@   update curReq = ite(result == nil, nilof(*fnv1.Requirements), result.Requirements)
-//@ site (*v1.Result).GetSeverity($rs)
-//@   update fatal = fatal || result == fnv1.Severity_SEVERITY_FATAL
 // the requirements of the latest response (curReq) and of the response before it (prevReq):
 // the run is settled only when those two are equal - not when the latest equals some older one
 //@ ghost prevReq ref = nilof(*fnv1.Requirements)
 //@ ghost curReq ref = nilof(*fnv1.Requirements)
 //@ site reflect.DeepEqual($a, $b)
 //@   update stable = result && $a == curReq && $b == prevReq
-//@ ensures [C04,C03:returned-response-is-final-and-settled] err == nil ==> result == $last && (stable || fatal)
+//@ ensures [C04,C03:returned-response-is-final-and-settled] err == nil ==> result == $last && (stable || HASFATAL(result))
 //@ loop for i <= MaxRequirementsIterations
 //@   invariant [C04:rounds-counted] rounds == i && 0 <= i
 //@   invariant [C04,C03:remembered-requirements-are-the-latest-responses] requirements == curReq
+//@   invariant [C04,C03:no-response-so-far-carried-a-fatal-result] lastRsp != nil ==> !HASFATAL(lastRsp)
 //@ loop range rsp.GetResults()
-//@   invariant [C04:no-fatal-result-so-far] !fatal
+//@   invariant [C04,C03:no-fatal-result-so-far] forall j :: 0 <= j && j < done ==> !(ranged[j] != nil && ranged[j].Severity == fnv1.Severity_SEVERITY_FATAL)
+//@   invariant [C04:results-of-the-latest-response] rsp == lastRsp
 //@ loop range newRequirements.GetExtraResources()
 //@   invariant [C04:only-required-names-are-supplied] forall k:Str :: k in req.ExtraResources ==> k in visited
 //@   invariant [C04:every-required-name-visited-is-supplied] forall k:Str :: k in visited ==> k in req.ExtraResources
